@@ -87,6 +87,7 @@ type Event struct {
 	NDBs    int      `json:"ndbs"`    // databases managed by the Store
 	ExecFree bool    `json:"execFree"` // executor semaphore free (sampled only while no call is in flight)
 	ChkFree  bool    `json:"chkFree"`  // checkpoint lock free (same)
+	Cut      int64   `json:"cut"`      // cut-off (ms) a retention step used, 0 otherwise
 	Bg       bool    `json:"bg"`       // a background application writer (AppHoldWrite) was in flight during this step
 	Pre     PreState `json:"pre"`
 }
@@ -120,6 +121,8 @@ type Runner struct {
 	gated   any // in-flight step-by-step checkpoint (gate.go)
 	seenRem map[string]bool
 	fc      *faultClient
+	lastCut   int64
+	baseMs    int64 // times are logged in ms relative to this instant (TLC integers are 32 bit)
 	holdDone  chan struct{}
 	appMu     sync.Mutex
 	freeLogMu sync.Mutex
@@ -182,7 +185,15 @@ func (r *Runner) closeApp() {
 	}
 }
 
+func (r *Runner) rel(ms int64) int64 {
+	if ms <= r.baseMs {
+		return 0
+	}
+	return ms - r.baseMs
+}
+
 func (r *Runner) setup() error {
+	r.baseMs = time.Now().UnixMilli() - 1000
 	os.MkdirAll(r.dir, 0o755)
 	os.MkdirAll(r.tmp, 0o755)
 	if err := r.openApp(); err != nil {
@@ -776,6 +787,7 @@ func (r *Runner) observe(ev *Event) {
 		}
 		r.seenL0[key] = true
 		o := DecodeLTX(fh, 0, ps, r.dict)
+		o.TS = r.rel(o.TS)
 		fh.Close()
 		if r.prevRem[name] {
 			a, e1 := os.ReadFile(filepath.Join(r.metaLTXDir(), "0", name))
@@ -932,6 +944,7 @@ func RunCase(c Case, baseDir string, hooks func(r *Runner, ls *litestream.DB)) (
 		bg0 := r.holdDone != nil
 		ev.Res, ev.Ack = r.Step(st, false)
 		ev.Bg = bg0 || r.holdDone != nil
+		ev.Cut, r.lastCut = r.rel(r.lastCut), 0
 		r.observe(&ev)
 		isRepl := strings.HasPrefix(ev.Op, "Ls") || ev.Op == "Compact" || ev.Op == "Snapshot" || strings.HasSuffix(ev.Op, "Retention") || strings.HasSuffix(ev.Op, "RetentionAbs") || ev.Op == "RetByTXID"
 		if ev.Ack || ev.Op == "RestoreCheck" || (c.Cfg.RestoreEach && isRepl && ev.Res != "skip" && len(ev.Remote) > 0) {
